@@ -397,3 +397,208 @@ pub proof fn lemma_hdlr_roundtrip(d: Seq<u8>, p: int, b: HdlrBox)
     lemma_rd4(d, p, Seq::<u8>::empty(), hdlr_len(b) as nat, all);
     lemma_fourcc_of_u32_of(b.handler_type);
 }
+
+// ---- spec-level round trips of the sample entries the muxer writes (C14): reference bytes -> decode-side relation
+pub proof fn lemma_avcc_hdr(d: Seq<u8>, p: int, b: AvcCBox)
+    requires 0 <= p, avcc_wire(b)
+    ensures be32(wr(d, p, avcc_bytes(b)), p) == avcc_len(b), be32(wr(d, p, avcc_bytes(b)), p + 4) == 0x61766343
+{
+    broadcast use lemma_be_bytes_len;
+    let all = avcc_bytes(b);
+    let l = be_bytes(avcc_len(b) as nat, 4); let t = be_bytes(0x61766343, 4);
+    let six = seq![b.configuration_version, b.avc_profile_indication, b.profile_compatibility, b.avc_level_indication,
+        b.length_size_minus_one | 0xFC, (b.sequence_parameter_sets@.len() as u8) | 0xE0];
+    let rest = six + nals_bytes(b.sequence_parameter_sets@, b.sequence_parameter_sets@.len() as int)
+        + seq![b.picture_parameter_sets@.len() as u8] + nals_bytes(b.picture_parameter_sets@, b.picture_parameter_sets@.len() as int);
+    assert(all =~= (l + t) + rest);
+    lemma_prefix_refl(all);
+    lemma_prefix_app(l + t, rest, all);
+    lemma_rd4(d, p, l, 0x61766343, all);
+    lemma_prefix_app(l, t, all);
+    assert(Seq::<u8>::empty() + l =~= l);
+    lemma_rd4(d, p, Seq::<u8>::empty(), avcc_len(b) as nat, all);
+}
+
+pub proof fn lemma_avc1_roundtrip(d: Seq<u8>, p: int, b: Avc1Box)
+    requires 0 <= p, avc1_wire(b), b.avcc.length_size_minus_one <= 3
+    ensures avc1_at(wr(d, p, avc1_bytes(b)), p + 8, avc1_len(b) as u64, b), hdr_at(wr(d, p, avc1_bytes(b)), p, avc1_len(b) as u64, 0x61766331)
+{
+    broadcast use lemma_be_bytes_len;
+    lemma_avc1_pre(b);
+    reveal_with_fuel(avc1_pre, 18);
+    let all = avc1_bytes(b);
+    let s = wr(d, p, all);
+    lemma_prefix_refl(all);
+    lemma_prefix_app(avc1_pre(b, 15), avc1_piece(b, 16), all);
+    lemma_prefix_app(avc1_pre(b, 14), avc1_piece(b, 15), all);
+    lemma_prefix_app(avc1_pre(b, 13), avc1_piece(b, 14), all);
+    lemma_prefix_app(avc1_pre(b, 12), avc1_piece(b, 13), all);
+    lemma_prefix_app(avc1_pre(b, 11), avc1_piece(b, 12), all);
+    lemma_prefix_app(avc1_pre(b, 10), avc1_piece(b, 11), all);
+    lemma_prefix_app(avc1_pre(b, 9), avc1_piece(b, 10), all);
+    lemma_prefix_app(avc1_pre(b, 8), avc1_piece(b, 9), all);
+    lemma_prefix_app(avc1_pre(b, 7), avc1_piece(b, 8), all);
+    lemma_prefix_app(avc1_pre(b, 6), avc1_piece(b, 7), all);
+    lemma_prefix_app(avc1_pre(b, 5), avc1_piece(b, 6), all);
+    lemma_prefix_app(avc1_pre(b, 4), avc1_piece(b, 5), all);
+    lemma_prefix_app(avc1_pre(b, 3), avc1_piece(b, 4), all);
+    lemma_prefix_app(avc1_pre(b, 2), avc1_piece(b, 3), all);
+    lemma_prefix_app(avc1_pre(b, 1), avc1_piece(b, 2), all);
+    lemma_prefix_app(avc1_pre(b, 0), avc1_piece(b, 1), all);
+    lemma_rd2(d, p, avc1_pre(b, 2), b.data_reference_index as nat, all);
+    lemma_rd2(d, p, avc1_pre(b, 6), b.width as nat, all);
+    lemma_rd2(d, p, avc1_pre(b, 7), b.height as nat, all);
+    lemma_rd4(d, p, avc1_pre(b, 8), b.horizresolution.0.numer as nat, all);
+    lemma_rd4(d, p, avc1_pre(b, 9), b.vertresolution.0.numer as nat, all);
+    lemma_rd2(d, p, avc1_pre(b, 11), b.frame_count as nat, all);
+    lemma_rd2(d, p, avc1_pre(b, 13), b.depth as nat, all);
+    // header
+    let l = be_bytes(avc1_len(b) as nat, 4);
+    assert(avc1_pre(b, 0) == l + be_bytes(0x61766331, 4));
+    lemma_rd4(d, p, l, 0x61766331, all);
+    lemma_prefix_app(l, be_bytes(0x61766331, 4), all);
+    assert(Seq::<u8>::empty() + l =~= l);
+    lemma_rd4(d, p, Seq::<u8>::empty(), avc1_len(b) as nat, all);
+    // the configuration box is the last piece: the whole write is the write of the prefix followed by the write of avcC
+    lemma_wr_wr(d, p, avc1_pre(b, 15), avcc_bytes(b.avcc));
+    let d1 = wr(d, p, avc1_pre(b, 15));
+    assert(s == wr(d1, p + 86, avcc_bytes(b.avcc)));
+    lemma_avcc_roundtrip(d1, p + 86, b.avcc);
+    lemma_avcc_hdr(d1, p + 86, b.avcc);
+    lemma_nal_sum_bound(b.avcc.sequence_parameter_sets@, b.avcc.sequence_parameter_sets@.len() as int);
+    lemma_nal_sum_bound(b.avcc.picture_parameter_sets@, b.avcc.picture_parameter_sets@.len() as int);
+    assert(child_name(s, p + 86) == BoxType::AvcCBox);
+    assert(child_q(s, p + 86) == p + 94 && child_next(s, p + 86) == p + 86 + avcc_len(b.avcc));
+    assert(first_child(s, p + 86, p + avc1_len(b), BoxType::AvcCBox) == Some(p + 86));
+}
+
+pub open spec fn mp4a_encodable(b: Mp4aBox) -> bool { mp4a_wire(b) && (b.esds matches Some(e) ==> esds_encodable(e)) }
+pub proof fn lemma_mp4a_roundtrip(d: Seq<u8>, p: int, b: Mp4aBox)
+    requires 0 <= p, mp4a_encodable(b)
+    ensures mp4a_at(wr(d, p, mp4a_bytes(b)), p + 8, mp4a_len(b) as u64, b), hdr_at(wr(d, p, mp4a_bytes(b)), p, mp4a_len(b) as u64, 0x6d703461)
+{
+    broadcast use lemma_be_bytes_len;
+    lemma_mp4a_pre(b);
+    reveal_with_fuel(mp4a_pre, 11);
+    let all = mp4a_bytes(b);
+    let s = wr(d, p, all);
+    lemma_prefix_refl(all);
+    lemma_prefix_app(mp4a_pre(b, 8), mp4a_piece(b, 9), all);
+    lemma_prefix_app(mp4a_pre(b, 7), mp4a_piece(b, 8), all);
+    lemma_prefix_app(mp4a_pre(b, 6), mp4a_piece(b, 7), all);
+    lemma_prefix_app(mp4a_pre(b, 5), mp4a_piece(b, 6), all);
+    lemma_prefix_app(mp4a_pre(b, 4), mp4a_piece(b, 5), all);
+    lemma_prefix_app(mp4a_pre(b, 3), mp4a_piece(b, 4), all);
+    lemma_prefix_app(mp4a_pre(b, 2), mp4a_piece(b, 3), all);
+    lemma_prefix_app(mp4a_pre(b, 1), mp4a_piece(b, 2), all);
+    lemma_prefix_app(mp4a_pre(b, 0), mp4a_piece(b, 1), all);
+    lemma_rd2(d, p, mp4a_pre(b, 2), b.data_reference_index as nat, all);
+    lemma_rd2(d, p, mp4a_pre(b, 4), b.channelcount as nat, all);
+    lemma_rd2(d, p, mp4a_pre(b, 5), b.samplesize as nat, all);
+    lemma_rd4(d, p, mp4a_pre(b, 7), b.samplerate.0.numer as nat, all);
+    // sound-description version (first two of the eight reserved bytes) is 0: the children start 28 bytes into the body
+    lemma_be_bytes_8_split(0);
+    assert(be_bytes(0, 4) =~= be_bytes(0, 2) + be_bytes(0, 2)) by { broadcast use group_be_bytes; }
+    assert(is_prefix(mp4a_pre(b, 3) + be_bytes(0, 2), all)) by {
+        assert(mp4a_pre(b, 4) =~= (mp4a_pre(b, 3) + be_bytes(0, 2)) + (be_bytes(0, 2) + be_bytes(0, 4)));
+        lemma_prefix_app(mp4a_pre(b, 3) + be_bytes(0, 2), be_bytes(0, 2) + be_bytes(0, 4), all);
+    }
+    lemma_rd2(d, p, mp4a_pre(b, 3), 0, all);
+    assert(mp4a_children_start(s, p + 8) == p + 36);
+    // header
+    let l = be_bytes(mp4a_len(b) as nat, 4);
+    assert(mp4a_pre(b, 0) == l + be_bytes(0x6d703461, 4));
+    lemma_rd4(d, p, l, 0x6d703461, all);
+    lemma_prefix_app(l, be_bytes(0x6d703461, 4), all);
+    assert(Seq::<u8>::empty() + l =~= l);
+    lemma_rd4(d, p, Seq::<u8>::empty(), mp4a_len(b) as nat, all);
+    if b.esds is Some {
+        let e = b.esds->Some_0;
+        lemma_wr_wr(d, p, mp4a_pre(b, 8), esds_bytes(e));
+        let d1 = wr(d, p, mp4a_pre(b, 8));
+        assert(s == wr(d1, p + 36, esds_bytes(e)));
+        lemma_esds_roundtrip(d1, p + 36, e);
+        assert(child_name(s, p + 36) == BoxType::EsdsBox);
+        assert(child_q(s, p + 36) == p + 44 && child_next(s, p + 36) == p + 75 && child_size(s, p + 36) == 39);
+        assert(first_esds(s, p + 36, p + 75) == Some(p + 36));
+    } else {
+        assert(first_esds(s, p + 36, p + 36) is None);
+    }
+}
+
+// The muxer's AvcCBox::new stores lengthSizeMinusOne as 0xff; only its two low bits exist on the wire (the six high bits of that
+// byte are reserved ones), so what comes back is the value with that field reduced to two bits. Nothing else is normalised.
+pub open spec fn avcc_norm(b: AvcCBox) -> AvcCBox { AvcCBox { length_size_minus_one: b.length_size_minus_one & 3, ..b } }
+pub open spec fn avc1_norm(b: Avc1Box) -> Avc1Box { Avc1Box { avcc: avcc_norm(b.avcc), ..b } }
+pub open spec fn stsd_norm(b: StsdBox) -> StsdBox { StsdBox { avc1: match b.avc1 { Some(x) => Some(avc1_norm(x)), None => None }, ..b } }
+
+pub proof fn lemma_avcc_norm_bytes(b: AvcCBox)
+    ensures avcc_bytes(avcc_norm(b)) == avcc_bytes(b), avcc_len(avcc_norm(b)) == avcc_len(b), avcc_wire(avcc_norm(b)) == avcc_wire(b),
+            avcc_norm(b).length_size_minus_one <= 3
+{
+    let l = b.length_size_minus_one;
+    assert((l & 3) | 0xFC == l | 0xFC && l & 3 <= 3) by(bit_vector);
+    assert(avcc_head(avcc_norm(b)) =~= avcc_head(b));
+}
+pub proof fn lemma_avc1_norm_bytes(b: Avc1Box)
+    ensures avc1_bytes(avc1_norm(b)) == avc1_bytes(b), avc1_len(avc1_norm(b)) == avc1_len(b), avc1_wire(avc1_norm(b)) == avc1_wire(b),
+            avc1_norm(b).avcc.length_size_minus_one <= 3
+{
+    lemma_avcc_norm_bytes(b.avcc);
+    reveal_with_fuel(avc1_pre, 18);
+    assert(avc1_bytes(avc1_norm(b)) =~= avc1_bytes(b));
+}
+
+/// the two kinds of stsd the muxer builds with byte-exact entries: exactly an avc1 entry, or exactly an mp4a entry
+pub open spec fn stsd_muxed_avc(b: StsdBox) -> bool { b.avc1 is Some && b.hev1 is None && b.vp09 is None && b.mp4a is None && b.tx3g is None }
+pub open spec fn stsd_muxed_aac(b: StsdBox) -> bool {
+    b.mp4a is Some && b.avc1 is None && b.hev1 is None && b.vp09 is None && b.tx3g is None && mp4a_encodable(b.mp4a->Some_0)
+}
+pub proof fn lemma_stsd_roundtrip(d: Seq<u8>, p: int, b: StsdBox)
+    requires 0 <= p, stsd_wire(b), stsd_muxed_avc(b) || stsd_muxed_aac(b)
+    ensures stsd_at(wr(d, p, stsd_bytes(b)), p + 8, stsd_norm(b)), hdr_at(wr(d, p, stsd_bytes(b)), p, stsd_len(b) as u64, 0x73747364)
+{
+    broadcast use lemma_be_bytes_len;
+    let all = stsd_bytes(b);
+    let s = wr(d, p, all);
+    let l = be_bytes(stsd_len(b) as nat, 4); let t = be_bytes(0x73747364, 4);
+    let eb = stsd_entry_bytes(b);
+    let pre2 = l + t + seq![b.version];
+    assert(all =~= ((pre2 + be_bytes(b.flags as nat, 3)) + be_bytes(1, 4)) + eb);
+    lemma_prefix_refl(all);
+    lemma_prefix_app((pre2 + be_bytes(b.flags as nat, 3)) + be_bytes(1, 4), eb, all);
+    lemma_prefix_app(pre2 + be_bytes(b.flags as nat, 3), be_bytes(1, 4), all);
+    lemma_rd3(d, p, pre2, b.flags as nat, all);
+    lemma_prefix_app(pre2, be_bytes(b.flags as nat, 3), all);
+    lemma_rd1s(d, p, l + t, b.version, all);
+    lemma_prefix_app(l + t, seq![b.version], all);
+    lemma_rd4(d, p, l, 0x73747364, all);
+    lemma_prefix_app(l, t, all);
+    assert(Seq::<u8>::empty() + l =~= l);
+    lemma_rd4(d, p, Seq::<u8>::empty(), stsd_len(b) as nat, all);
+    // the sample entry is the last piece
+    assert(stsd_head(b).len() == 16);
+    lemma_wr_wr(d, p, stsd_head(b), eb);
+    let d1 = wr(d, p, stsd_head(b));
+    assert(s == wr(d1, p + 16, eb));
+    if stsd_muxed_avc(b) {
+        let x = b.avc1->Some_0;
+        lemma_avc1_norm_bytes(x);
+        lemma_avc1_roundtrip(d1, p + 16, avc1_norm(x));
+        assert(child_name(s, p + 16) == BoxType::Avc1Box);
+        assert(child_q(s, p + 16) == p + 24 && child_size(s, p + 16) == avc1_len(x) as u64);
+    } else {
+        let x = b.mp4a->Some_0;
+        lemma_mp4a_roundtrip(d1, p + 16, x);
+        assert(child_name(s, p + 16) == BoxType::Mp4aBox);
+        assert(child_q(s, p + 16) == p + 24 && child_size(s, p + 16) == mp4a_len(x) as u64);
+    }
+}
+
+// ---- what the track writer's write_end may change in the sample description: only bufferSizeDB of the AAC decoder configuration
+//      (set to the largest sample size, capped to its 24 bits); every other field is as configured at add_track
+pub open spec fn esds_nobuf(e: EsdsBox) -> EsdsBox {
+    EsdsBox { es_desc: ESDescriptor { dec_config: DecoderConfigDescriptor { buffer_size_db: 0, ..e.es_desc.dec_config }, ..e.es_desc }, ..e }
+}
+pub open spec fn mp4a_nobuf(m: Mp4aBox) -> Mp4aBox { Mp4aBox { esds: match m.esds { Some(e) => Some(esds_nobuf(e)), None => None }, ..m } }
+pub open spec fn stsd_nobuf(b: StsdBox) -> StsdBox { StsdBox { mp4a: match b.mp4a { Some(m) => Some(mp4a_nobuf(m)), None => None }, ..b } }
